@@ -708,3 +708,53 @@ pub fn grid_unit(unit: u64, ctx: &mut Ctx, ctl: &mut crate::scn::UnitCtl) {
         }
     }
 }
+
+/// Deterministic "large" sweep around internal limits (pre-allocation caps, buffer sizes):
+/// many records per file, many parts per shape, many points per part.
+pub fn large_unit(unit: u64, ctx: &mut Ctx, ctl: &mut crate::scn::UnitCtl) {
+    use crate::scn::Scenario;
+    let mut scns: Vec<RtScn> = Vec::new();
+    let mk = |shapes: Vec<ShapeSpec>, with_shx: bool, stack: StackCfg, rstack: StackCfg, path: bool| RtScn {
+        w: WProg { calls: (0..shapes.len()).map(WCall::W).collect(), shapes, others: vec![], ending: Ending::Drop, with_shx, stack },
+        wplan: Plan::default(),
+        rstack,
+        rplan: Plan::default(),
+        path,
+    };
+    match unit {
+        0 => {
+            // many records: around 1024, 4096 and beyond
+            for (i, n) in [1023usize, 1024, 1025, 4095, 4096, 4097, 10_000].iter().enumerate() {
+                let ty = [1, 21, 11][i % 3];
+                let shapes: Vec<ShapeSpec> = (0..*n).map(|k| grid_spec(ty, 1, 1, k)).collect();
+                scns.push(mk(shapes, true, StackCfg::Buf(8192), if i % 2 == 0 { StackCfg::Direct } else { StackCfg::Buf(8192) }, *n == 4097));
+            }
+        }
+        1 => {
+            // many parts per shape
+            for (i, nparts) in [1023usize, 1024, 1025, 1500, 2049].iter().enumerate() {
+                let ty = [3, 5, 31, 13, 25][i % 5];
+                let shapes = vec![grid_spec(ty, *nparts, if is_polygon(ty) { 3 } else { 2 }, 7), grid_spec(ty, 2, 3, 90)];
+                scns.push(mk(shapes, i % 2 == 0, StackCfg::Direct, StackCfg::Direct, false));
+            }
+        }
+        _ => {
+            // many points per part
+            for (i, npts) in [1023usize, 1024, 1025, 3000, 8193].iter().enumerate() {
+                for ty in [[3, 8, 18], [23, 28, 15], [31, 5, 13]][i % 3] {
+                    let shapes = vec![grid_spec(ty, 1, *npts, 11), grid_spec(ty, 1, 3, 60)];
+                    scns.push(mk(shapes, i % 2 == 1, StackCfg::Buf(64), StackCfg::Buf(4096), false));
+                }
+            }
+        }
+    }
+    for scn in scns {
+        if !ctl.before_case(|| Scenario::Rt(scn.clone())) {
+            continue;
+        }
+        ctx.stats.evaluations += 1;
+        ctx.stats.reach("large-scenario");
+        execute(&scn, ctx);
+        ctl.after_case(ctx, || Scenario::Rt(scn.clone()));
+    }
+}
